@@ -26,7 +26,7 @@ theorem group_spec (N : Nat) (fs : List (List F)) (pows : List F) (zs : List Nat
 group, in increasing order of the evaluation point -/
 def densOf (groups : Groups F) (t : F) (off : Nat) : List F :=
   (List.zipIdx groups off).filterMap (fun (e : Option (List F) × Nat) =>
-    match e.1 with | none => none | some _ => some (t - ((e.2 : Nat) : F)))
+    e.1.map fun _ => t - ((e.2 : Nat) : F))
 
 /-- **Compaction.** Walking the non-empty groups with a running index into the compacted
 inverse-denominator list pairs the group of evaluation point `z` with `(t − z)⁻¹` — not with
@@ -53,9 +53,7 @@ theorem h_fold_eq (groups : Groups F) (t : F) (h0 : List F) :
     (List.zip (groups.filterMap id) (batchInvert (densOf groups t 0))).foldl
         (fun (h : List F) (e : List F × F) => addVec h (e.1.map (· * e.2))) h0
       = (List.zipIdx groups).foldl (fun (h : List F) (e : Option (List F) × Nat) =>
-          match e.1 with
-          | none => h
-          | some f => addVec h (f.map (· * (t - ((e.2 : Nat) : F))⁻¹))) h0 := by
+          (e.1.map fun f => addVec h (f.map (· * (t - ((e.2 : Nat) : F))⁻¹))).getD h) h0 := by
   rw [denInv_compaction]
   generalize List.zipIdx groups 0 = l
   induction l generalizing h0 with
